@@ -35,6 +35,8 @@ pub struct Task {
     pub published: AtomicU64,
     /// monitor fact: this side has dropped its endpoint (close published)
     pub closed: AtomicBool,
+    /// the task's waker state (one waker per task, reused by every `block_on` of the thread)
+    pub wake: Arc<WakeState>,
 }
 
 impl Task {
@@ -43,6 +45,10 @@ impl Task {
     }
     pub fn is_done(&self) -> bool {
         self.state.load(Relaxed) == DONE
+    }
+    /// parked and nobody has called its waker since: only a wake-up can make it run again
+    pub fn is_asleep(&self) -> bool {
+        self.is_parked() && !self.wake.notified.load(Relaxed)
     }
     pub fn publish(&self, n: u64) {
         self.published.store(n, Relaxed);
@@ -59,31 +65,31 @@ impl Task {
     }
 }
 
-struct ThreadWaker {
-    thread: Thread,
-    notified: AtomicBool,
-    wakes: AtomicU64,
+#[derive(Default)]
+pub struct WakeState {
+    thread: std::sync::OnceLock<Thread>,
+    pub notified: AtomicBool,
+    pub wakes: AtomicU64,
 }
 
-impl Wake for ThreadWaker {
+impl Wake for WakeState {
     fn wake(self: Arc<Self>) {
         self.wake_by_ref()
     }
     fn wake_by_ref(self: &Arc<Self>) {
         self.wakes.fetch_add(1, Relaxed);
         self.notified.store(true, Release);
-        self.thread.unpark();
+        if let Some(t) = self.thread.get() {
+            t.unpark();
+        }
     }
 }
 
 /// Drives `fut` on the current thread. Parks (without timeout: a task that is never woken stays
 /// parked, which Miri reports as a deadlock and the native watchdog classifies) until woken.
 pub fn block_on<F: Future>(task: &Task, fut: F) -> F::Output {
-    let tw = Arc::new(ThreadWaker {
-        thread: thread::current(),
-        notified: AtomicBool::new(false),
-        wakes: AtomicU64::new(0),
-    });
+    let tw = task.wake.clone();
+    tw.thread.get_or_init(thread::current);
     let waker = Waker::from(tw.clone());
     let mut cx = Context::from_waker(&waker);
     let mut fut = pin!(fut);
@@ -101,6 +107,61 @@ pub fn block_on<F: Future>(task: &Task, fut: F) -> F::Output {
             task.state.store(PARKED, Relaxed);
             thread::park();
             task.state.store(RUNNING, Relaxed);
+        }
+    }
+}
+
+/// Outcome of waiting for the peer to act on something this side has published.
+#[derive(Clone, Copy, Debug, PartialEq, Eq)]
+pub enum Ack {
+    /// the peer's monitor counter reached the target (or the peer finished)
+    Progressed,
+    /// the bound expired and the peer is asleep in its waker with no wake latched: it was not
+    /// woken although this side published => lost wake-up (bounded-progress restatement)
+    LostWakeup,
+    /// the bound expired but the peer is runnable: merely slow => inconclusive
+    Slow,
+}
+
+/// Bounded wait until `peer.published >= target`. The bound is generous: 20 000 scheduler
+/// yields under Miri (a runnable peer gets a full quantum per yield), 3 s of wall clock on
+/// real threads (a woken thread needs microseconds).
+pub fn await_published(peer: &Task, target: u64) -> Ack {
+    let start = std::time::Instant::now();
+    let mut i = 0u64;
+    loop {
+        if peer.published.load(Relaxed) >= target || peer.is_done() {
+            return Ack::Progressed;
+        }
+        i += 1;
+        let expired = if cfg!(miri) {
+            i > 20_000
+        } else {
+            i > 64 && start.elapsed() > std::time::Duration::from_secs(3)
+        };
+        if expired {
+            if peer.is_asleep() {
+                // confirm: still asleep a little later, counter still short
+                for _ in 0..64 {
+                    spin_yield();
+                }
+                if peer.is_asleep() && peer.published.load(Relaxed) < target {
+                    return Ack::LostWakeup;
+                }
+            }
+            let hopeless = if cfg!(miri) {
+                i > 200_000
+            } else {
+                start.elapsed() > std::time::Duration::from_secs(15)
+            };
+            if hopeless {
+                return Ack::Slow;
+            }
+        }
+        if !cfg!(miri) && i > 32 {
+            thread::sleep(std::time::Duration::from_micros(if i > 2000 { 200 } else { 10 }));
+        } else {
+            spin_yield();
         }
     }
 }
